@@ -1088,3 +1088,99 @@ def gen_literal_program(seed):
         body.insert(0, {'t': 'match', 'm': {'k': 'str', 'bytes': [120]}})
     p = _mk(outs, hooks, [], [], body)
     return p, spell_program(p)
+
+
+def gen_expr_program(seed, wide=False):
+    """C14: one-statement uses of a random well-typed expression tree in assignment, character append, if-condition and
+    conditional action positions; operands are loaded from input bytes so that the explorers vary them."""
+    r = random.Random(seed)
+    widths = [(1, True), (1, False), (2, True), (2, False), (4, True)] + ([(4, False), (8, True), (8, False)] if wide else [])
+    vars_ = []
+    for i in range(3):
+        w, sg = r.choice(widths)
+        vars_.append({'name': 'v%d' % i, 'type': 'int', 'signed': sg, 'width': w, 'default': r.choice([None, 0, 1, 2, 7, 100, 127, 128, 255, 256, 32767, 65535, -1, -128])})
+    for v in vars_:
+        if v['default'] is not None:
+            lo, hi = (-(1 << (8 * v['width'] - 1)), (1 << (8 * v['width'] - 1)) - 1) if v['signed'] else (0, (1 << (8 * v['width'])) - 1)
+            if not (lo <= v['default'] <= hi):
+                v['default'] = 1
+    tw, tsg = r.choice(widths)
+    outs = vars_ + [{'name': 'res', 'type': 'int', 'signed': tsg, 'width': tw, 'default': 0},
+                    {'name': 'flag', 'type': 'int', 'signed': None, 'width': None, 'default': 0},
+                    {'name': 'b', 'type': 'bool', 'default': r.choice([0, 1])},
+                    {'name': 's', 'type': 'str', 'size': 5, 'term': r.random() < 0.5, 'default': [r.choice([65, 200, 0x7f, 0x80, 255, 1]) for _ in range(r.randint(0, 4))]}]
+    names = [v['name'] for v in vars_]
+
+    def atom(allow_last=True):
+        k = r.random()
+        if k < 0.3:
+            return {'k': 'var', 'name': r.choice(names)}
+        if k < 0.5:
+            return {'k': 'num', 'v': r.choice([0, 1, 2, 3, 5, 7, 8, 10, 31, 32, 100, 127, 128, 255, 256, 1000, 32767, 65536])}
+        if k < 0.6:
+            return {'k': 'chr', 'c': r.choice(b'a0Z ')}
+        if k < 0.7 and allow_last:
+            return {'k': 'last'}
+        if k < 0.8:
+            return {'k': 'len', 'name': 's'}
+        if k < 0.92:
+            return {'k': 'idx', 'name': 's', 'i': r.choice([{'k': 'num', 'v': r.randint(0, 5)}, {'k': 'bin', 'op': '-', 'l': {'k': 'len', 'name': 's'}, 'r': {'k': 'num', 'v': 1}},
+                                                             {'k': 'bin', 'op': '&', 'l': {'k': 'var', 'name': r.choice(names)}, 'r': {'k': 'num', 'v': 3}}])}
+        return {'k': 'neg', 'e': {'k': 'var', 'name': r.choice(names)}}
+
+    def arith(d):
+        if d == 0 or r.random() < 0.25:
+            return atom()
+        op = r.choice(['+', '-', '*', '/', '%', '&', '|', '^', '<<', '>>', '+', '-', '*'])
+        l = arith(d - 1)
+        if op in ('/', '%'):
+            rr = r.choice([{'k': 'num', 'v': r.choice([1, 2, 3, 7, 10, 16])}, arith(d - 1)])
+        elif op in ('<<', '>>'):
+            rr = r.choice([{'k': 'num', 'v': r.randint(0, 7)}, {'k': 'bin', 'op': '&', 'l': atom(), 'r': {'k': 'num', 'v': 7}}])
+        else:
+            rr = arith(d - 1)
+        return {'k': 'bin', 'op': op, 'l': l, 'r': rr}
+
+    def cond(d):
+        k = r.random()
+        if d > 0 and k < 0.35:
+            return {'k': 'bin', 'op': r.choice(['&&', '||']), 'l': cond(d - 1), 'r': cond(d - 1)}
+        if d > 0 and k < 0.45:
+            return {'k': 'not', 'e': cond(d - 1)}
+        if k < 0.55:
+            return {'k': 'var', 'name': 'b'}
+        return {'k': 'bin', 'op': r.choice(['==', '!=', '<', '>', '<=', '>=']), 'l': arith(1), 'r': arith(1)}
+
+    load = []
+    for v in vars_[:2]:
+        load += [{'t': 'match', 'm': {'k': 're', 'r': {'k': 'any'}, 'bin': False}},
+                 {'t': 'set', 'var': v['name'], 'e': r.choice([{'k': 'last'}, {'k': 'bin', 'op': '-', 'l': {'k': 'last'}, 'r': {'k': 'num', 'v': 128}},
+                                                               {'k': 'bin', 'op': '*', 'l': {'k': 'last'}, 'r': {'k': 'num', 'v': r.choice([2, 129, 257])}}])}]
+    use = r.randrange(4)
+    e = arith(r.randint(1, 3))
+    body = list(load) + [{'t': 'match', 'm': {'k': 're', 'r': {'k': 'any'}, 'bin': False}}]
+    if use == 0:
+        body += [{'t': 'set', 'var': 'res', 'e': e}]
+    elif use == 1:
+        body += [{'t': 'appendc', 'var': 's', 'e': e}]
+    elif use == 2:
+        c = cond(2)
+        body += [{'t': 'if', 'br': [{'c': c, 'b': [{'t': 'set', 'var': 'flag', 'e': {'k': 'num', 'v': 1}}]}], 'els': [{'t': 'set', 'var': 'flag', 'e': {'k': 'num', 'v': 2}}]},
+                 {'t': 'set', 'var': 'res', 'e': e}]
+    else:
+        c = cond(2)
+        # condition point: bodies consume, so $last is not allowed in the condition
+        def strip(x):
+            if isinstance(x, dict):
+                if x.get('k') == 'last':
+                    return {'k': 'var', 'name': names[0]}
+                return {k: strip(v) for k, v in x.items()}
+            if isinstance(x, list):
+                return [strip(v) for v in x]
+            return x
+        body += [{'t': 'match', 'm': {'k': 'str', 'bytes': [120]}},
+                 {'t': 'if', 'br': [{'c': strip(c), 'b': [{'t': 'match', 'm': {'k': 'str', 'bytes': [121]}}, {'t': 'set', 'var': 'flag', 'e': {'k': 'num', 'v': 1}}]}],
+                  'els': [{'t': 'match', 'm': {'k': 'str', 'bytes': [122]}}, {'t': 'set', 'var': 'flag', 'e': {'k': 'num', 'v': 2}}]}]
+    body += [{'t': 'hook', 'n': 'h'}, {'t': 'match', 'm': {'k': 'str', 'bytes': [33]}}]
+    p = _mk(outs, ['h'], [], [], body)
+    return p, spell_program(p)
